@@ -748,6 +748,8 @@ impl DbInner {
 			old_id,
 			record_id,
 		);
+		#[cfg(pdb_verif)]
+		crate::verif::ev(crate::verif::EV_DEFER_COMMIT, old_id, record_id);
 		queue.commits.push_back(commit);
 		queue.bytes += bytes;
 		Ok(())
@@ -1213,6 +1215,8 @@ impl DbInner {
 				let record_id = reader.record_id();
 				let bytes = reader.read_bytes();
 				let cleared = reader.drain();
+				#[cfg(pdb_verif)]
+				crate::verif::ev(crate::verif::EV_ENACT_RECORD, record_id, validation_mode as u64);
 				self.last_enacted.store(record_id, Ordering::SeqCst);
 				Some((record_id, cleared, bytes))
 			} else {
@@ -1460,6 +1464,8 @@ impl Db {
 		let start_threads = opening_mode != OpeningMode::ReadOnly && options.with_background_thread;
 		#[cfg(not(any(test, feature = "instrumentation")))]
 		let start_threads = opening_mode != OpeningMode::ReadOnly;
+		#[cfg(pdb_verif)]
+		let start_threads = start_threads && !crate::verif::external_workers();
 		let commit_thread = if start_threads {
 			let commit_worker_db = db.clone();
 			Some(thread::spawn(move || {
@@ -2132,6 +2138,8 @@ impl IndexedChangeSet {
 		options: &Options,
 	) -> Result<()> {
 		let ref_counted = options.columns[self.col as usize].ref_counted;
+		#[cfg(pdb_verif)]
+		crate::verif::ev(crate::verif::EV_COPY_TO_OVERLAY, self.col as u64, record_id);
 		for change in self.changes.iter() {
 			match &change {
 				Operation::Set(k, v) => {
@@ -2349,6 +2357,228 @@ pub mod check {
 			};
 			CheckOptions { column, from, bound, display, fast, validate_free_refs }
 		}
+	}
+}
+
+#[cfg(pdb_verif)]
+impl Db {
+	/// Run one pipeline stage once and report whether it did any work.
+	pub fn verif_step(&self, stage: crate::verif::Stage) -> Result<bool> {
+		use crate::verif::Stage;
+		match stage {
+			Stage::ProcessCommits => self.inner.process_commits(&self.inner),
+			Stage::ProcessReindex => self.inner.process_reindex(),
+			Stage::FlushLogs => self.inner.flush_logs(0),
+			Stage::EnactOne => self.inner.enact_logs(false),
+			Stage::CleanLogs => self.inner.clean_logs(),
+		}
+	}
+
+	/// Run the body of one background worker on the calling thread, wrapped in `store_err`
+	/// exactly as `open_inner` does for the std threads.
+	pub fn verif_run_worker(&self, worker: crate::verif::Worker) {
+		use crate::verif::Worker;
+		let db = self.inner.clone();
+		let result = match worker {
+			Worker::Log => Self::log_worker(db),
+			Worker::Flush => {
+				let min_log_size =
+					if self.inner.options.always_flush { 0 } else { MIN_LOG_SIZE_BYTES };
+				Self::flush_worker(db, min_log_size)
+			},
+			Worker::Commit => Self::commit_worker(db),
+			Worker::Cleanup => Self::cleanup_worker(db),
+		};
+		self.inner.store_err(result)
+	}
+
+	/// What a worker thread does with the result of its loop.
+	pub fn verif_store_err(&self, result: Result<()>) {
+		self.inner.store_err(result)
+	}
+
+	/// Request shutdown (first half of `drop`).
+	pub fn verif_shutdown(&self) {
+		self.inner.shutdown()
+	}
+
+	pub fn verif_digest(&self) -> crate::verif::Digest {
+		self.inner.verif_digest()
+	}
+}
+
+#[cfg(pdb_verif)]
+fn verif_hash_op<K: AsRef<[u8]>>(h: &mut crate::verif::Hasher, op: &Operation<K, RcValue>) {
+	match op {
+		Operation::Set(k, v) => {
+			h.u64(1);
+			h.bytes(k.as_ref());
+			h.bytes(v.value());
+		},
+		Operation::Dereference(k) => {
+			h.u64(2);
+			h.bytes(k.as_ref());
+		},
+		Operation::Reference(k) => {
+			h.u64(3);
+			h.bytes(k.as_ref());
+		},
+		Operation::InsertTree(k, _) => {
+			h.u64(4);
+			h.bytes(k.as_ref());
+		},
+		Operation::ReferenceTree(k) => {
+			h.u64(5);
+			h.bytes(k.as_ref());
+		},
+		Operation::DereferenceTree(k) => {
+			h.u64(6);
+			h.bytes(k.as_ref());
+		},
+	}
+}
+
+#[cfg(pdb_verif)]
+impl DbInner {
+	fn verif_digest(&self) -> crate::verif::Digest {
+		let mut d = crate::verif::Digest::default();
+		let mut h = crate::verif::Hasher::default();
+		{
+			let queue = self.commit_queue.lock();
+			h.tag("commit_queue");
+			h.u64(queue.record_id);
+			h.u64(queue.bytes as u64);
+			d.commit_queue_len = queue.commits.len();
+			d.commit_queue_bytes = queue.bytes;
+			for c in queue.commits.iter() {
+				h.u64(c.id);
+				h.u64(c.bytes as u64);
+				h.u64(c.changeset.check_for_deferral as u64);
+				let mut cols: Vec<_> = c.changeset.indexed.keys().cloned().collect();
+				cols.sort();
+				for col in cols {
+					let cs = &c.changeset.indexed[&col];
+					h.u64(col as u64);
+					for op in cs.changes.iter() {
+						verif_hash_op(&mut h, op);
+					}
+					for n in cs.node_changes.iter() {
+						match n {
+							NodeChange::NewValue(a, v) => {
+								h.u64(11);
+								h.u64(*a);
+								h.bytes(v.value());
+							},
+							NodeChange::IncrementReference(a) => {
+								h.u64(12);
+								h.u64(*a);
+							},
+							NodeChange::DereferenceChildren(k, hash, children) => {
+								h.u64(13);
+								h.bytes(k);
+								h.bytes(hash);
+								for c in children {
+									h.u64(*c);
+								}
+							},
+						}
+					}
+					let mut used: Vec<_> = cs.used_trees.iter().cloned().collect();
+					used.sort();
+					for u in used {
+						h.bytes(&u);
+					}
+				}
+				let mut cols: Vec<_> = c.changeset.btree_indexed.keys().cloned().collect();
+				cols.sort();
+				for col in cols {
+					let cs = &c.changeset.btree_indexed[&col];
+					h.u64(col as u64);
+					for op in cs.changes.iter() {
+						verif_hash_op(&mut h, op);
+					}
+				}
+			}
+		}
+		{
+			let overlay = self.commit_overlay.read();
+			h.tag("commit_overlay");
+			for o in overlay.iter() {
+				let mut keys: Vec<_> = o.indexed.keys().cloned().collect();
+				keys.sort();
+				d.commit_overlay_entries += o.indexed.len() + o.address.len() + o.btree_indexed.len();
+				h.u64(keys.len() as u64);
+				for k in keys {
+					let (id, v) = &o.indexed[&k];
+					h.bytes(&k);
+					h.u64(*id);
+					match v {
+						Some(v) => h.bytes(v.value()),
+						None => h.u64(u64::MAX),
+					}
+				}
+				let mut keys: Vec<_> = o.address.keys().cloned().collect();
+				keys.sort();
+				h.u64(keys.len() as u64);
+				for k in keys {
+					let (id, v) = &o.address[&k];
+					h.u64(k);
+					h.u64(*id);
+					h.bytes(v.value());
+				}
+				h.u64(o.btree_indexed.len() as u64);
+				for (k, (id, v)) in o.btree_indexed.iter() {
+					h.bytes(k.value());
+					h.u64(*id);
+					match v {
+						Some(v) => h.bytes(v.value()),
+						None => h.u64(u64::MAX),
+					}
+				}
+			}
+		}
+		{
+			let trees = self.trees.read();
+			h.tag("trees");
+			let mut cols: Vec<_> = trees.keys().cloned().collect();
+			cols.sort();
+			for col in cols {
+				let t = &trees[&col];
+				h.u64(col as u64);
+				let mut td: Vec<_> = t.to_dereference.iter().map(|(k, v)| (*k, *v)).collect();
+				td.sort();
+				d.to_dereference += td.len();
+				for (k, v) in td {
+					h.bytes(&k);
+					h.u64(v as u64);
+				}
+				let mut live: Vec<_> = t
+					.readers
+					.iter()
+					.filter_map(|(k, r)| r.upgrade().map(|r| (*k, r.is_locked())))
+					.collect();
+				live.sort();
+				for (k, locked) in live {
+					h.bytes(&k);
+					h.u64(locked as u64);
+				}
+			}
+		}
+		d.log_queue_bytes = *self.log_queue_wait.work.lock();
+		d.last_enacted = self.last_enacted.load(Ordering::SeqCst);
+		d.next_reindex = self.next_reindex.load(Ordering::SeqCst);
+		d.bg_err = self.bg_err.lock().is_some();
+		h.tag("scalars");
+		h.u64(d.log_queue_bytes as u64);
+		h.u64(d.last_enacted);
+		h.u64(d.next_reindex);
+		h.u64(d.bg_err as u64);
+		self.log.verif_digest(&mut h, &mut d);
+		for c in self.columns.iter() {
+			c.verif_digest(&mut h, &mut d);
+		}
+		d.hash = h.finish();
+		d
 	}
 }
 
